@@ -1,7 +1,7 @@
 (* C08 — Any inbound bytes: valid packets accepted verbatim, malformed rejected, no panic.  Statements only. *)
 From Coq Require Import List NArith.
 From Minimq Require Import Bytes Varint Utf8 Props Ser De Reader Arena Core Show Machine.
-From Minimq Require Import VarintProofs CodecProofs Limits.
+From Minimq Require Import VarintProofs CodecProofs Limits Connack.
 Import ListNotations.
 Open Scope N_scope.
 
@@ -57,6 +57,25 @@ Theorem C08_properties_verbatim : forall ps block,
   props_iter_encoded block = map Some ps.
 Proof. exact props_iter_roundtrip. Qed.
 
+(* a successful CONNACK is accepted exactly when none of its properties is Receive Maximum 0, a Maximum QoS above 2
+   (protocol errors of the broker) or an Assigned Client Identifier longer than 64 bytes; every other property list
+   that decodes - any order, any user properties, unknown-to-the-client server properties - is accepted *)
+Theorem C08_connack_accepted_iff : forall s sp ps block now,
+  encode_all ps = Some block -> forallb prop_wf ps = true -> forallb prop_canon ps = true ->
+  snd (connack_process s (Some (RConnAck sp 0 block)) now) =
+    if forallb connack_prop_ok ps then CAOk sp else CAErr EInvalidPacket true.
+Proof. exact connack_accepted_iff. Qed.
+
+(* REFUTED for one class of valid packets (known finding K08a): a CONNACK whose Assigned Client Identifier has 65
+   bytes is well-formed MQTT 5, decodes, fits a 128-byte receive buffer - and is refused with the invalid-packet error
+   in every state, because the session keeps the identifier in 64 bytes *)
+Theorem C08_assigned_client_id_refuted :
+  forallb prop_wf k08a_props = true /\ forallb prop_canon k08a_props = true /\
+  lenN k08a_packet = 73 /\
+  (exists block, from_buffer k08a_packet = Some (RConnAck false 0 block) /\ encode_all k08a_props = Some block) /\
+  forall s now, snd (connack_process s (from_buffer k08a_packet) now) = CAErr EInvalidPacket true.
+Proof. exact assigned_client_id_refuted. Qed.
+
 Print Assumptions C08_varint_roundtrip.
 Print Assumptions C08_varint_canonical.
 Print Assumptions C08_probe_agrees.
@@ -69,3 +88,5 @@ Print Assumptions C08_oversize.
 Print Assumptions C08_window.
 Print Assumptions C08_publish_verbatim.
 Print Assumptions C08_properties_verbatim.
+Print Assumptions C08_connack_accepted_iff.
+Print Assumptions C08_assigned_client_id_refuted.
